@@ -1,6 +1,6 @@
 CONSTANTS
-  MaxAbsent = 99
-  MaxPresent = 2
+  MaxAbsent = 2
+  MaxPresent = 3
 INIT Init
 NEXT Next
 CONSTRAINT Emit
